@@ -302,3 +302,190 @@ class parse_iso8601:
 
 transparent("pendulum.parsing.iso8601._get_iso_8601_week", "pendulum.parsing.iso8601._parse_iso8601_duration",
             why="helper of parse_iso8601: executed from its source inside the per-shape proofs")
+
+
+# =========================================================================================== durations (C13)
+from contracts import duration as _cd  # noqa: E402
+from pendulum.duration import Duration  # noqa: E402
+from pyvc.spec import DUS  # noqa: E402
+
+UNITS = ("Y", "Mo", "W", "D", "H", "Mi", "S")
+_LETTER = {"Y": "Y", "Mo": "M", "W": "W", "D": "D", "H": "H", "Mi": "M", "S": "S"}
+_SCALE_US = {"W": 7 * DUS, "D": DUS, "H": 3600 * M, "Mi": 60 * M, "S": M}
+
+
+def dur_build(F, comps, fsep="."):
+    """comps: sequence of (unit, integer digits, fraction digits or 0) in the order written.
+    returns (CharStr, {unit: (int value, fraction digit list)}, constraints)"""
+    b = Builder(F)
+    b.lit("P")
+    vals = {}
+    seen_t = False
+    for unit, nd, nf in comps:
+        if unit in ("H", "Mi", "S") and not seen_t:
+            b.lit("T")
+            seen_t = True
+        v, _ = b.digits(nd, unit.lower())
+        fr = []
+        if nf:
+            b.lit(fsep)
+            _, fr = b.digits(nf, unit.lower() + "f")
+        b.lit(_LETTER[unit])
+        vals[unit] = (v, fr)
+    return strings.CharStr(b.chars), vals, b.cons
+
+
+def dur_wellformed(comps):
+    """ISO 8601: designators in order, W alone, a fraction only on the last (smallest) component and never on years
+    or months"""
+    units = [u for u, _, _ in comps]
+    order = [UNITS.index(u) for u in units]
+    if order != sorted(set(order)):
+        return False
+    if "W" in units and len(units) > 1:
+        return False
+    for i, (u, _, nf) in enumerate(comps):
+        if nf and (i != len(comps) - 1 or u in ("Y", "Mo")):
+            return False
+    return len(comps) > 0
+
+
+def dur_exact_us(vals):
+    """exact rational length in microseconds of the W/D/H/M/S components (a Real when there is a fraction)"""
+    tot = 0
+    for u, (v, fr) in vals.items():
+        if u in ("Y", "Mo"):
+            continue
+        tot = sym.add(tot, sym.mul(v, _SCALE_US[u]))
+        if fr:
+            n = 0
+            for d in fr:
+                n = sym.add(sym.mul(n, 10), d)
+            tot = sym.add(tot, sym.truediv(sym.mul(n, _SCALE_US[u]), 10 ** len(fr)))
+    return tot
+
+
+def dur_shape_name(comps, fsep="."):
+    return "P:" + "".join(f"{u}{nd}" + (f"{fsep}{nf}" if nf else "") for u, nd, nf in comps)
+
+
+def dur_shapes(tier):
+    out = []
+    time_units = ("H", "Mi", "S")
+    ymd = ("Y", "Mo", "D")
+    # every subset of the six designators, two digits each
+    for mask in range(1, 64):
+        comps = [(u, 2, 0) for i, u in enumerate(ymd + time_units) if mask >> i & 1]
+        out.append((tuple(comps), "."))
+    out.append(((("W", 2, 0),), "."))
+    # integer widths 1..10 for every designator on its own
+    for u in UNITS:
+        for nd in (range(1, 11) if tier == "thorough" else (1, 3, 9, 10)):
+            out.append((((u, nd, 0),), "."))
+    # a fraction of 1..9 digits on the smallest component, alone and after a larger one
+    for u, before in (("W", None), ("D", "Mo"), ("H", "D"), ("Mi", "H"), ("S", "Mi")):
+        for nf in range(1, 10):
+            for fsep in ((".", ",") if tier == "thorough" or nf in (1, 2) else (".",)):
+                out.append((((u, 1, nf),), fsep))
+                if before is not None and (tier == "thorough" or nf in (1, 2, 6, 7, 9)):
+                    out.append((((before, 2, 0), (u, 2, nf)), fsep))
+    out.append(((("Y", 4, 0), ("Mo", 2, 0), ("D", 2, 0), ("H", 2, 0), ("Mi", 2, 0), ("S", 2, 3)), "."))
+    out.append(((("D", 10, 0), ("S", 10, 9)), ","))
+    # not well formed: must be rejected
+    for comps in ([("Y", 1, 1)], [("Mo", 1, 1)], [("Y", 1, 1), ("D", 1, 0)], [("Y", 1, 0), ("Mo", 1, 2)], [("D", 1, 1), ("H", 1, 0)], [("H", 1, 1), ("Mi", 1, 0)],
+                  [("Mi", 1, 1), ("S", 1, 0)], [("D", 1, 1), ("S", 1, 0)], [("H", 1, 1), ("S", 1, 1)], [("W", 1, 0), ("D", 1, 0)], [("W", 1, 0), ("H", 1, 0)],
+                  [("W", 1, 1), ("D", 1, 0)]):
+        out.append((tuple(comps), "."))
+    seen, uniq = set(), []
+    for s in out:
+        if s not in seen:
+            seen.add(s)
+            uniq.append(s)
+    return uniq
+
+
+def _dur_case(sh):
+    comps, fsep = sh
+    ok_form = dur_wellformed(comps)
+
+    class case:
+        def applies(text, **options):
+            return False
+
+        def args(F):
+            text, vals, cons = dur_build(F, comps, fsep)
+            case._vals = vals
+            return dict(text=text, options={}), cons
+
+        @staticmethod
+        def _expected():
+            vals = case._vals
+            years = vals.get("Y", (0, []))[0]
+            months = vals.get("Mo", (0, []))[0]
+            R = dur_exact_us(vals)
+            return years, months, R
+
+        if ok_form:
+            # representable: the native value (years = 365 d, months = 30 d) fits a timedelta
+            raises = [(ValueError, "too_large_to_represent",
+                       lambda text, options: Not(stdlib.td_in_range(sym.rhe(sym.toreal(sym.add(_cd.ym_us(case._expected()[0], case._expected()[1]), case._expected()[2]))))))]
+        else:
+            raises = [(ValueError, "not_well_formed", lambda text, options: True)]
+
+        def result(F, text, options):
+            raise NotImplementedError
+
+        def ensures(result, text, options):
+            years, months, R = case._expected()
+            if not (isinstance(result, Obj) and issubclass(result.cls, Duration)):
+                return [("returns_a_duration", False)]
+            rem = sym.sub(sym.toreal(result.us), sym.toreal(sym.add(_cd.ym_us(years, months), R)))
+            return [("returns_a_duration", True),
+                    ("years_and_months_as_written", And(eq(result._years, years), eq(result._months, months))),
+                    ("exact_value_rounded_to_the_microsecond", And(le(sym.mul(2, rem), 1), ge(sym.mul(2, rem), -1)))]
+
+        def replay(conc, model, o):
+            from fractions import Fraction
+
+            from pyvc.verify import resolve
+
+            text = conc["text"]
+            fn, _ = resolve("pendulum.parsing.iso8601._parse_iso8601_duration")
+            try:
+                got = ("ok", fn(text))
+            except Exception as e:  # noqa: BLE001
+                got = ("raise", e)
+            exp = dur_oracle(text)
+            if got[0] == "raise":
+                bad = not isinstance(got[1], ValueError) or exp is not None
+                obs = f"raised {type(got[1]).__name__}: {got[1]}"
+            else:
+                r = got[1]
+                obs = repr(r)
+                if exp is None or r is None:
+                    bad = True
+                else:
+                    native = Fraction(_dt.timedelta.total_seconds(r)).limit_denominator(10 ** 6) * 10 ** 6 if False else \
+                        (_dt.timedelta.__sub__(r, _dt.timedelta(0)) // _dt.timedelta(microseconds=1))
+                    want = exp[2] + (exp[0] * 365 + exp[1] * 30) * DUS
+                    bad = not (r.years == exp[0] and r.months == exp[1] and abs(native - want) * 2 <= 1)
+            return {"confirmed": bool(bad), "call": {"function": "pendulum.parsing.iso8601._parse_iso8601_duration", "args": {"text": repr(text)}}, "observed": obs,
+                    "expected": ("ValueError (not well formed or too large)" if exp is None else f"years={exp[0]} months={exp[1]} remaining={exp[2]} us (exact)"),
+                    "failed_clauses": [o.id.split("#")[1].split("@")[0]] if bad else [],
+                    "detail": "real parser disagrees with the exact value of the string" if bad else "real parser agrees on this input"}
+
+    case.__name__ = dur_shape_name(comps, fsep)
+    return case
+
+
+from bounded.isogen import dur_oracle  # noqa: E402  (independent native oracle, shared with the bounded sweeps)
+
+
+def _dur_cases():
+    tier = os.environ.get("VERIF_TIER", "quick")
+    return {dur_shape_name(*sh): _dur_case(sh) for sh in dur_shapes(tier)}
+
+
+@contract("pendulum.parsing.iso8601._parse_iso8601_duration", props=["C13", "C17"])
+class parse_duration:
+    cases = _dur_cases()
